@@ -240,6 +240,8 @@ func worldCase(t *testing.T, idx int64, r *rand.Rand) {
 	k.Precise = r.IntN(2) == 0
 	capacity := 1 + r.IntN(2)
 	yields := []int{0, 200, 3000}[r.IntN(3)]
+	slowDelegate := k.Family != "queue" && r.IntN(3) == 0
+	slowBy := time.Duration(1+r.IntN(40)) * time.Millisecond
 	var ops []string
 	checks, giveups, sameInstant := 0, 0, 0
 	bad := false
@@ -261,11 +263,28 @@ func worldCase(t *testing.T, idx int64, r *rand.Rand) {
 				return
 			}
 			bad = true
-			extra["kind"], extra["capacity"], extra["ops"], extra["trace"] = k, capacity, ops, w.Trace()
+			extra["kind"], extra["capacity"], extra["ops"], extra["trace"], extra["slow_delegate"] = k, capacity, ops, w.Trace(), slowDelegate
 			rt.Violation(fmt.Sprintf("C02/%s/%s", k, sig), idx, extra)
 		}
+		// a slow delegate: a successful attempt made by a caller takes (virtual) time to return, so that a deadline /
+		// time-out can pass between "token taken" and "Acquire returns"; such a token is outstanding although no caller
+		// has it yet
+		var midFlight atomic.Int64
+		if slowDelegate {
+			prev := w.Gate.Hook
+			w.Gate.Hook = func(e inject.GateEvent) {
+				if prev != nil {
+					prev(e)
+				}
+				if e.OK && w.WaiterByGoID(e.GoID) != nil {
+					midFlight.Add(1)
+					time.Sleep(slowBy)
+					midFlight.Add(-1)
+				}
+			}
+		}
 		outstanding := func() int {
-			n := len(held)
+			n := len(held) + int(midFlight.Load())
 			for _, wt := range w.Waiters {
 				if wt.Done() && wt.OK && !wt.Completed {
 					n++
@@ -408,6 +427,9 @@ func worldCase(t *testing.T, idx int64, r *rand.Rand) {
 	rt.Count("quiescent_checks", int64(checks))
 	rt.Count("give_up_events_injected", int64(giveups))
 	rt.Count("releases_at_the_instant_of_a_bound", int64(sameInstant))
+	if slowDelegate {
+		rt.Count("bubble_scenarios_with_slow_delegate", 1)
+	}
 	if !bad && checks > 5 {
 		rt.Distinct(fmt.Sprintf("%v|%d|%v", k, capacity, ops))
 	}
